@@ -214,6 +214,16 @@ Register(s, g, v) ==
 \* d |= {key: v}  and  d.update({key: v}) with one pair
 InitIor(s, g, key, v) == InitSet(s, g, key, v)
 
+\* d.setdefault(key, v)
+InitSetdefault(s, g, key, v) == IF key \in InitKeys(s, g) THEN Ok(s) ELSE InitSet(s, g, key, v)
+
+\* d.update({v.name: v, w.name: w}): all or nothing (C06: a rejected call leaves everything as it was)
+InitUpdate2(s, g, v, w) ==
+  LET r1 == InitSet(s, g, s.vName[v], v) IN
+  IF r1.out # "ok" THEN Rej(s, r1.out)
+  ELSE LET r2 == InitSet(r1.s, g, r1.s.vName[w], w) IN
+       IF r2.out # "ok" THEN Rej(s, r2.out) ELSE r2
+
 \* ---- Value.name -----------------------------------------------------------------------
 SetName(s, v, name) ==
   IF s.vName[v] = name THEN Ok(s)
@@ -391,6 +401,10 @@ Apply(s, c) ==
     [] c.op = "GInsertBefore" -> GInsert(s, c.g, c.n, c.vs, TRUE)
     [] c.op = "GInsertAfter"  -> GInsert(s, c.g, c.n, c.vs, FALSE)
     [] c.op = "GRemove"    -> GRemove(s, c.g, c.vs, c.flag)
+    [] c.op = "NodePrepend" -> IF s.nGraph[c.n] = 0 THEN Rej(s, "no-graph") ELSE GInsert(s, s.nGraph[c.n], c.n, c.vs, TRUE)
+    [] c.op = "NodeAppend"  -> IF s.nGraph[c.n] = 0 THEN Rej(s, "no-graph") ELSE GInsert(s, s.nGraph[c.n], c.n, c.vs, FALSE)
+    [] c.op = "InitSetdefault" -> InitSetdefault(s, c.g, c.name, c.v)
+    [] c.op = "InitUpdate2" -> InitUpdate2(s, c.g, c.v, c.w)
     [] c.op = "NewNode"    -> NewNode(s, c.vs, c.ws, c.i, c.g)
     [] c.op = "ReplaceAllUses" -> ReplaceAllUses(s, c.v, c.w, c.flag)
 
